@@ -21,7 +21,13 @@ def hexs(b: bytes) -> str:
 
 BOUNDS = {'u8': 8, 'u16': 16, 'u32': 32, 'u64': 64, 'ticket': 32}
 STR_POOL = ['', 'a', 'abc', 'user name', 'Ünï', '\u00e9', '\u4e2d\u6587', '\U0001F600', 'a\x00b', 'x' * 40,
-            'C:\\dir\\file.mp3', '@@abc\\f\\g.flac', '\u20ac\u201a', '\x7f\x80', '\ud7ff\ue000', '\uffff', '\U0010ffff']
+            'C:\\dir\\file.mp3', '@@abc\\f\\g.flac', '\u20ac\u201a', '\x7f\x80', '\ud7ff\ue000', '\uffff', '\U0010ffff',
+            # characters a "helpful" decoder / encoder may eat, fold or replace (byte-order mark and signature handling,
+            # stripping, case folding, unicode normalisation, replacement on error, newline translation, mojibake repair)
+            '\ufeff', '\ufeffabc', 'abc\ufeff', '\ufeff\ufeff', '\ufffe', '\ufffd', 'a\ufffdb', ' lead', 'trail ', '\ttab\t',
+            ' ', '\n', 'a\r\nb', '\r', '\x85', '\u2028\u2029', '\x00', '\x00lead', 'trail\x00', '\x1a', '\u0130\u0131', '\u00df', 'SS',
+            'e\u0301', '\u00e9', '\u212b', '\u00c5', '\uff21\uff22', '\u00c3\u00a9', '\u00e2\u20ac\u2122', '\x81\x8d\x8f\x90\x9d',
+            '\u200b', '\u200e\u202e', '\u00a0', '\u00ad']
 
 
 def gen_int(rng: random.Random, bits: int) -> int:
@@ -50,7 +56,7 @@ def gen_str(rng: random.Random) -> str:
     for _ in range(n):
         c = rng.choice([rng.randrange(0x20, 0x7f), rng.randrange(0x80, 0x800), rng.randrange(0x800, 0xd800),
                         rng.randrange(0xe000, 0x10000), rng.randrange(0x10000, 0x110000), 0, 0x7f, 0x80, 0x7ff,
-                        0x800, 0xffff, 0x10000])
+                        0x800, 0xffff, 0x10000, 0xfeff, 0xfffd, 0xfffe, 0x20, 0x09, 0x0a, 0x0d, 0x85, 0xa0, 0x2028, 0x130, 0xdf, 0x301])
         out.append(chr(c))
     return ''.join(out)
 
